@@ -18,6 +18,10 @@ LITERALS = [
     'let s5 = "a\nliteral newline";', 'let s6 = "Host: x\\r\\nAccept: y\\r\\n";', 'let s7 = "cr\\ralone and \\n\\r swapped";',
     'let s8 = "raw\r\ncrlf inside";', 'let t0 = {"quoted name" = 1, plain = 2, "with-dash" = 3, "k1" = 4};', "let i0 = 9223372036854775807;",
     'let e0 = "@ and \\@ and @{1 + 1}" % (1);', "let n0 = NULL;", "let b0 = true && false || not true;",
+    # field names that are literals, keywords, numbers, empty or need quoting, in every place a field name is written
+    'let q0 = {"NULL" = 1, "true" = 2, "false" = 3, "let" = 4, "in" = 5, "self" = 6, "1" = 7, "a b" = 8, "" = 9, "NULLABLE" = 10, "trueish" = 11, "not" = 12};',
+    'let q1 = {a = 1}{"NULL" = 2, "select" = 3};', 'let q2 = select ("NULL", 0) => {"NULL" = 1, "true" = 2, "is" = 3};',
+    'let q3 = module {"NULL" = 1, "func" = 2} => { let x = 1; };', 'let q4 = {"NULL" = {"NULL" = [{"false" = 1}]}};', 'let q5 = {"env" = 1, "mod" = 2, "out" = 3};',
 ]
 
 
